@@ -212,12 +212,31 @@ def rkey(rng):
     return "|".join([f] + ch)
 
 
+STR_CHAINS = [c for c in CHAINS if c and c[0] not in ("cidr", "exists", "lt", "gte", "gt", "minute", "year", "unknown", "utf16le", "i")
+              and c != ["contains", "re"] and "base64" not in c and "base64offset" not in c and "re" not in c] + [[], [], []]
+SAFE = False
+
+
 def rmapping(rng, n=None):
     m = {}
     for _ in range(n or rng.choice([1, 1, 2, 2, 3])):
-        k = rkey(rng)
-        if rng.random() < 0.3: v = [rvalue(rng) for _ in range(rng.choice([0, 1, 2, 3]))]
-        else: v = rvalue(rng)
+        if SAFE:
+            # mostly loadable: chain chosen after the value type
+            v = rvalue(rng)
+            f = rng.choice(FIELDS)
+            if isinstance(v, str):
+                ch = rng.choice(STR_CHAINS + [["re"], ["re", "i"], ["base64"], ["base64offset", "contains"]])
+                if "re" in ch: v = rng.choice(["a.*b", "^x$", "\\d+", "[ab]\\*", "x"])
+                if "base64" in ch or "base64offset" in ch: v = v.replace("*", "s").replace("?", "q")
+            elif isinstance(v, bool): ch = rng.choice([[], ["exists"]])
+            elif isinstance(v, (int, float)): ch = rng.choice([[], [], ["lt"], ["gte"], ["minute"]])
+            else: ch = []
+            k = "|".join([f] + ch)
+            if rng.random() < 0.25 and "exists" not in ch: v = [v, rvalue(rng) if not ch else v]
+        else:
+            k = rkey(rng)
+            if rng.random() < 0.3: v = [rvalue(rng) for _ in range(rng.choice([0, 1, 2, 3]))]
+            else: v = rvalue(rng)
         m[k] = v
     return m
 
@@ -378,7 +397,7 @@ TRS = [
     {"type": "field_name_prefix", "prefix": "p."},
     {"type": "drop_detection_item"},
     {"type": "hashes_fields", "valid_hash_algos": ["MD5", "SHA1"], "field_prefix": "File", "drop_algo_prefix": False},
-    {"type": "extract_fields", "fields": ["f"]},
+    {"type": "extract_fields", "regex": "(?P<k>[A-Za-z]+)=(?P<v>[a-z0-9]+)", "field_prefix": "h"},
     {"type": "wildcard_placeholders"},
     {"type": "value_placeholders"},
     {"type": "query_expression_placeholders", "expression": "{field} in {id}"},
@@ -446,10 +465,7 @@ def gen_hist(tier, rng):
     tries = 0
     while n > 0 and tries < 100000:
         tries += 1
-        det = rsection(rng)
-        # keep mostly loadable sections: plain chains only
-        if any("unknown" in k or "utf16le" in k for nm, d in det.items() if nm != "condition" for m in walk_defs(d) for k in m):
-            continue
+        det = loadable_section(rng) if rng.random() < 0.8 else rsection(rng)
         out.append({"det": det, "tr": rng.choice(TRS), "vars": {"x": ["v1", "v*2"], "v": "w"}})
         n -= 1
     return out
@@ -594,11 +610,12 @@ def rfilter(rng):
 
 
 def loadable_section(rng):
-    for _ in range(50):
-        d = rsection(rng)
-        if not any("unknown" in k or "utf16le" in k for nm, x in d.items() if nm != "condition" for m in walk_defs(x) for k in m):
-            return d
-    return {"sel": {"f": "x"}, "condition": "sel"}
+    global SAFE
+    SAFE = True
+    try:
+        return rsection(rng)
+    finally:
+        SAFE = False
 
 
 def gen_doc(tier, rng):
